@@ -4,6 +4,7 @@ import (
 	"crypto/sha256"
 	"fmt"
 
+	"github.com/decred/dcrd/dcrec/secp256k1/v4"
 	"github.com/elnosh/gonuts/cashu/nuts/nut07"
 )
 
@@ -25,7 +26,7 @@ func (w *W) compareStates(where string, idx []int, states []nut07.ProofState) {
 		if s.State.String() != stName[p.St] {
 			prop := "C15"
 			if p.St == Spent {
-				prop = "C01"
+				prop = "C01,C15"
 			}
 			w.viol(prop, fmt.Sprintf("state-check-state/model=%s/got=%s", stName[p.St], s.State), "%s: p%d reported %s, model %s", where, n, s.State, stName[p.St])
 		}
@@ -34,3 +35,11 @@ func (w *W) compareStates(where string, idx []int, states []nut07.ProofState) {
 		}
 	}
 }
+
+// Viol lets probes outside this package record violations.
+func (w *W) Viol(prop, key, format string, a ...any) { w.viol(prop, key, format, a...) }
+
+func (w *W) KeysetByID(id string) *KS { return w.ksByID(id) }
+
+// RefCheckKeyset is installed by package props once the independent reference derivation is linked in.
+var RefCheckKeyset func(w *W, idx int, id string, keys map[uint64]*secp256k1.PublicKey)
